@@ -65,9 +65,9 @@ class Gen:
 
     def build(self):
         g = self
-        g.recordings = [g.recording(i) for i in range(2)]
-        g.clips = [data.Clip(recording=g.rng.choice(g.recordings), start_time=float(i), end_time=float(i) + 1.5, features=g.features()) for i in range(3)]
-        g.sound_events = [data.SoundEvent(geometry=GEOMS[i % 9](), recording=g.recordings[i % 2] if g.on() else g.clips[0].recording, features=g.features())
+        g.recordings = [g.recording(i) for i in range(3)]   # the third is used by no clip, only by sound events
+        g.clips = [data.Clip(recording=g.rng.choice(g.recordings[:2]), start_time=float(i), end_time=float(i) + 1.5, features=g.features()) for i in range(3)]
+        g.sound_events = [data.SoundEvent(geometry=GEOMS[i % 9](), recording=g.recordings[i % 3] if g.on() else g.clips[0].recording, features=g.features())
                           for i in range(9)]
         seq0 = data.Sequence(sound_events=g.sound_events[:2], features=g.features())
         seq1 = data.Sequence(sound_events=g.sound_events[2:4], parent=seq0)
